@@ -43,6 +43,14 @@ type program struct {
 	Src       string
 	Construct string   // probe: the construct it isolates; random: "random"
 	Includes  []string // module names it includes
+	Modules   []string // modules the file defines (nil: just Name)
+}
+
+func (p program) modules() []string {
+	if len(p.Modules) > 0 {
+		return p.Modules
+	}
+	return []string{p.Name}
 }
 
 // ---------- probe programs ----------
@@ -98,6 +106,11 @@ func probes() []program {
 	// includes two levels deep: Top includes Mid, Mid includes Base, Top names Base types directly
 	ps = append(ps, probe("PbMid", "include-level-1", "    struct MidBox { 0 require PbBase::BasePoint p; 1 optional PbBase::BaseColor c = PbBase::BBLUE; };", "PbBase"))
 	ps = append(ps, probe("PbTop", "include-two-levels-deep", "    struct TopS { 0 require PbMid::MidBox b; 1 require PbBase::BasePoint direct; 2 optional vector<PbBase::BaseColor> cs; };\n    interface TopI { PbBase::BasePoint f(PbMid::MidBox b, out PbBase::BaseColor c); };", "PbMid"))
+	// several modules in one file, later ones naming earlier ones; with and without an include
+	ps = append(ps, program{Name: "PbMulti", Construct: "two-modules-in-one-file", Modules: []string{"PbMultiA", "PbMultiB"},
+		Src: "module PbMultiA\n{\n    struct A { 0 require int x; };\n};\nmodule PbMultiB\n{\n    struct B { 0 require PbMultiA::A a; 1 optional vector<PbMultiA::A> v; };\n};\n"})
+	ps = append(ps, program{Name: "PbM2", Construct: "three-modules-in-one-file-with-include", Modules: []string{"PbM2A", "PbM2B", "PbM2C"}, Includes: []string{"PbBase"},
+		Src: "#include \"PbBase.tars\"\nmodule PbM2A\n{\n    struct A { 0 require PbBase::BasePoint p; };\n};\nmodule PbM2B\n{\n    struct B { 0 require int y; };\n};\nmodule PbM2C\n{\n    struct C { 0 require PbBase::BaseColor c; 1 require PbM2A::A a; 2 optional PbBase::BasePoint q; };\n};\n"})
 	add("interface-basic", "    struct I { 0 require int a; };\n    interface F { int f(int a, string b, out long c); void g(); I h(I i, out I o, vector<I> v, out map<string, I> m); };")
 	add("interface-out-first", "    interface F { long f(out string o, string i, int x); bool g(out int a, out int b); };")
 	add("interface-all-scalars", "    interface F { int f(bool a, byte b, short c, int d, long e, float f1, double g, string h, unsigned byte i, unsigned short j, unsigned int k, out bool oa, out byte ob, out short oc, out int od, out long oe, out float of1, out double og, out string oh, out unsigned byte oi, out unsigned short oj, out unsigned int ok); };")
@@ -373,13 +386,21 @@ func main() {
 			return
 		}
 		p := progs[i]
-		if _, err := os.Stat(filepath.Join(genDir, p.Name)); err != nil {
-			mu.Lock()
-			run.Violation("no-output", p.Construct, "tars2go exited 0 but emitted no package for module "+p.Name, map[string]interface{}{"program": p.Src})
-			mu.Unlock()
-			return
+		for _, m := range p.modules() {
+			if _, err := os.Stat(filepath.Join(genDir, m)); err != nil {
+				mu.Lock()
+				run.Violation("no-output", p.Construct, "tars2go exited 0 but emitted no package for module "+m, map[string]interface{}{"program": p.Src})
+				mu.Unlock()
+				return
+			}
 		}
-		ok, out := goBuildPkg(overlay, "verif/gen2/"+p.Name)
+		ok, out := true, ""
+		for _, m := range p.modules() {
+			if ok1, out1 := goBuildPkg(overlay, "verif/gen2/"+m); !ok1 {
+				ok, out = false, out1
+				break
+			}
+		}
 		mu.Lock()
 		defer mu.Unlock()
 		run.Eval(1)
@@ -443,7 +464,9 @@ func engineOverCorpus(progs []program, compiled []bool, idlDir, genDir string) {
 			}
 		}
 		if ok {
-			args = append(args, filepath.Join(genDir, p.Name)+"=verif/gen2/"+p.Name)
+			for _, m := range p.modules() {
+				args = append(args, filepath.Join(genDir, m)+"=verif/gen2/"+m)
+			}
 			tars = append(tars, filepath.Join(idlDir, p.Name+".tars"))
 		}
 	}
